@@ -6,6 +6,7 @@ import (
 	"go/token"
 	"go/types"
 	"sort"
+	"strconv"
 	"strings"
 
 	"golang.org/x/tools/go/ssa"
@@ -123,8 +124,22 @@ func (vc *FuncVC) resolver(defs map[string][]defPoint, b *ssa.BasicBlock, idx in
 		}
 		var best *defPoint
 		bestDepth := -1
+		var onlyHead *ssa.BasicBlock
+		if i := strings.LastIndex(name, "_L"); i > 0 {
+			if k, err := strconv.Atoi(name[i+2:]); err == nil {
+				for _, l := range vc.loops {
+					if l.ordinal == k {
+						onlyHead = l.head
+						name = name[:i]
+					}
+				}
+			}
+		}
 		for i := range defs[name] {
 			d := &defs[name][i]
+			if onlyHead != nil && d.b != onlyHead {
+				continue
+			}
 			ok := false
 			if d.b == b {
 				ok = d.idx < idx
@@ -544,6 +559,30 @@ func (vc *FuncVC) block(b *ssa.BasicBlock, defs map[string][]defPoint) {
 		vc.instr(b, i, ins, st, defs)
 	}
 	vc.out[b] = st
+	// normal loop exit from the head: checked-then-assumed exit assertions (instantiation lemmas)
+	if l != nil && l.spec != nil && len(l.spec.ExitAsserts) > 0 {
+		for _, s := range b.Succs {
+			if l.body[s] {
+				continue
+			}
+			g := vc.define("exit_L", vc.edgeCond(b, s))
+			env := &Env{vc: vc, st: st, old: vc.entry, vars: map[string]SVal{}}
+			env.lookup = vc.resolver(defs, b, len(b.Instrs), st, nil, nil)
+			if l.rng != nil {
+				env.visKey = visKeyOf(l.rng)
+			}
+			for _, ea := range l.spec.ExitAsserts {
+				env.ctx = ea.Ctx
+				t, err := env.Bool(ea.Expr)
+				if err != nil {
+					vc.errorf("%s: exit-assert: %v", ea.Where, err)
+					continue
+				}
+				vc.oblige(fmt.Sprintf("exit-assert:L%d", l.ordinal), ea.Label, "holds when the loop terminates normally: "+ea.Raw, b.Instrs[len(b.Instrs)-1].Pos(), g, t)
+				vc.assume(g, t)
+			}
+		}
+	}
 	// back edges leaving this block: invariant preservation
 	for _, s := range b.Succs {
 		if hl := vc.loopAt[s]; hl != nil && s.Dominates(b) {
@@ -872,7 +911,7 @@ func (vc *FuncVC) instr(b *ssa.BasicBlock, idx int, ins ssa.Instruction, st *Sta
 		switch t := under(x.X.Type()).(type) {
 		case *types.Slice:
 			vc.safetyOb("bounds", "index in range of slice "+x.X.Name(), x.Pos(), reach, And(App(SBool, "<=", IntLit(0), i), App(SBool, "<", i, App(SInt, "slen", base))))
-			vc.vals[x] = vc.define(x.Name(), vc.elemAddr(App(SRef, "sarr", base), App(SInt, "+", App(SInt, "soff", base), i)))
+			vc.vals[x] = vc.define(x.Name(), slElem(base, i))
 		case *types.Pointer:
 			at := under(t.Elem()).(*types.Array)
 			if !vc.nonNilValue(x.X) {
